@@ -158,6 +158,7 @@ def extra_calls():
         ("poly_remainder", lambda a, b: numpoly.poly_remainder(a, numpoly.symbols("q0") ** 2)),
         ("call(1,2)", lambda a, b: a(1, 2)), ("call(q0=b)", lambda a, b: a(q0=b)), ("call(q1=3)", lambda a, b: a(q1=3)),
         ("call(b, a)", lambda a, b: a(b, a)),
+        ("numpoly.call(a,(1,),{q1:2})", lambda a, b: numpoly.call(a, (1,), {"q1": 2})),
         ("derivative", lambda a, b: numpoly.derivative(a, "q0")), ("derivative q1", lambda a, b: numpoly.derivative(a, "q1")),
         ("derivative twice", lambda a, b: numpoly.derivative(a, 0, 0)), ("gradient", lambda a, b: numpoly.gradient(a)),
         ("hessian", lambda a, b: numpoly.hessian(a)),
@@ -279,6 +280,13 @@ def run_case(case, R):
             a, b = maker()
             if isinstance(b, numpoly.ndpoly):
                 observe(R, label + " [swapped]", flabel, {"a": a, "b": b}, lambda: g(b, a))
+        # function form of evaluation: the tuple and the dict handed over are arguments too
+        a, b = maker()
+        if isinstance(a, numpoly.ndpoly) and len(a.names) >= 2:
+            for args, kw in (((1,), {a.names[1]: 2}), ((), {a.names[0]: 3}), ((1, 2), {}), ((None, 2), {})):
+                args_l, kw_d = tuple(args), dict(kw)
+                observe(R, f"numpoly.call(a, {args}, {kw})", flabel, {"a": a, "args": args_l, "kwargs": kw_d}, lambda: numpoly.call(a, args_l, kw_d))
+                observe(R, f"numpoly.call(a, {args}, {kw}) again with the same dict", flabel, {"a": a, "args": args_l, "kwargs": kw_d}, lambda: numpoly.call(a, args_l, kw_d))
     elif case["k"] == "targets":
         # explicit output targets: only the target may change
         for name in ("add", "subtract", "multiply", "negative", "absolute", "floor", "rint", "square", "positive"):
